@@ -1384,7 +1384,12 @@ func (rn *run) respond(w http.ResponseWriter, form, codec string, herr int) {
 			// no status at all
 		case end.How == "trailersonly" && len(frames) == 0:
 			for k, v := range endHdr {
-				h[k] = v
+				if end.Style == "prefixed" && !strings.HasPrefix(k, "Grpc-") {
+					// the status in the response headers, the handler's own trailers set the net/http way
+					h[http.TrailerPrefix+k] = v
+				} else {
+					h[k] = v
+				}
 			}
 		case form == "grpc":
 			if end.Style == "prefixed" {
